@@ -168,6 +168,10 @@ fn still_injections(rng: &mut Rng, out: &mut Vec<Inj>) {
         ("zlib/stored-nlen", Box::new(|z: &mut Vec<u8>, _: &mut Rng| z[5] ^= 0x10), Deflater::Stored(65535)),
         ("zlib/block-type-3", Box::new(|z: &mut Vec<u8>, _: &mut Rng| z[2] = (z[2] & !6) | 6), Deflater::Stored(65535)),
         ("zlib/truncated", Box::new(|z: &mut Vec<u8>, r: &mut Rng| { let n = z.len(); let cut = r.usize(5, 9.min(n - 1)); z.truncate(n - cut); }), Deflater::Stored(65535)),
+        // only the Adler-32 trailer (1..4 bytes) is missing: every pixel byte is there, the stream is still too short
+        ("zlib/truncated-trailer", Box::new(|z: &mut Vec<u8>, r: &mut Rng| { let n = z.len(); let cut = r.usize(1, 4); z.truncate(n - cut); }), Deflater::Stored(65535)),
+        ("zlib/truncated-trailer", Box::new(|z: &mut Vec<u8>, r: &mut Rng| { let n = z.len(); let cut = r.usize(1, 4); z.truncate(n - cut); }), Deflater::Level(6)),
+        ("zlib/truncated-trailer", Box::new(|z: &mut Vec<u8>, r: &mut Rng| { let n = z.len(); let cut = r.usize(1, 4); z.truncate(n - cut); }), Deflater::Fdeflate),
     ];
     for (class, f, d) in zm {
         let z = build_frame_stream(&img, interlace, rng, |_, _| {}, |z, r| f(z, r), &d);
